@@ -106,6 +106,11 @@ class Ctx:
     def nontrivial(self, key):
         self.nontrivial_keys.add(_h64(key))
 
+    def nontrivial_range(self, prefix, n):
+        """n distinct cases that share a prefix (e.g. every raw value of one instance), counted exactly."""
+        base = (_h64(prefix) >> 24) << 24
+        self.nontrivial_keys.update(range(base, base + n))
+
     def cover(self, name, item):
         """Record that `item` of the finite class `name` was reached; the merged size becomes counter <name>_covered."""
         self.covers.setdefault(name, set()).add(item if isinstance(item, (str, int)) else repr(item))
